@@ -13,7 +13,7 @@ import itertools
 import struct
 
 from mc import core, explore
-from mc.world import World, Monitor
+from mc.world import World, Monitor, open_datagram
 from mc.pair import DeliveryMonitor, app_send, payload, quiescent
 
 core.import_repo()
@@ -273,6 +273,33 @@ def scenario(params, ch):
         if lost:
             ch.flag("lost-message", "queued message(s) never reached the peer over a perfect network (%s)" % ("burst of %d x %d bytes" % burst if burst else "send sequence"),
                     "%d of %d messages lost; path=%s mtu=%d sends=%r" % (lost, len(queued), path, mtu, sends))
+        # no datagram leaves behind a queued message it still has room for (all sends of this scenario are queued before
+        # the first datagram is built; unretried sends only)
+        if not burst and sends and all(r == "none" for _, r in sends):
+            P0, _F0 = caps(mtu)
+            src_ = "s" if sender == "s" else "c0"
+            grams = []
+            for d in w.all_sent[base:]:
+                if d.src != src_:
+                    continue
+                ms = open_datagram(w, d)
+                if ms:
+                    grams.append([(t, len(pl)) for _, t, pl in ms if t in (6, 7)])
+            grams = [g for g in grams if g]
+            for k, g in enumerate(grams):
+                n_k = len(g)
+                s_k = sum(L for _, L in g)
+                for later in grams[k + 1:]:
+                    for t, L in later:
+                        n2 = n_k + 1
+                        if n2 <= 255 and L + s_k + (2 if n2 == 1 else 5 * n2) <= P0 + 2:
+                            ch.flag("fit-together", "a datagram leaves a queued message behind although it still has room for it",
+                                    "datagram %d carries %d message(s) / %d bytes, a later datagram carries a %d-byte message that would have fitted (MTU %d, sends %r)" % (
+                                        k + 1, n_k, s_k, L, mtu, [x[0] for x in sends]))
+                            break
+                    else:
+                        continue
+                    break
         # messages that fit together travel in one datagram
         P, F = caps(mtu)
         n = len(queued)
@@ -315,6 +342,9 @@ def params_list(tier):
                         if tier == "quick" and n == 2 and mode != "none" and path != "client":
                             continue
                         out.append((mtu, path, tuple((L, mode) for L in combo), None))
+            # a message that does not fit is followed by smaller ones that do
+            for combo in ((P_of(mtu) // 2 + 1, P_of(mtu) // 2 + 1, 1), (P_of(mtu) - 400, P_of(mtu) - 400, 300, 300), (P_of(mtu) + 500, 24, 24, 24), (P_of(mtu), 1, P_of(mtu), 0, 1)):
+                out.append((mtu, path, tuple((L, "none") for L in combo), None))
             for mode in ("none", "retry"):
                 if tier == "quick" and mode == "retry" and path != "client":
                     continue
